@@ -9,6 +9,8 @@ Record case := mkCase {
   c_par : bool;                               (* runFanInitializationInParallel *)
   c_fans : list (Z * (fancfg * caps));
   c_db0 : list (Z * entry);
+  c_init : bool;                              (* true: every thread runs `fan init`'s sequence (delete both entries,
+                                                 RunInitializationSequence) instead of Run *)
   c_faulty : list Z;                          (* fans with an injected device fault (write / read error during the analysis):
                                                  outside the model's assumption that the device answers; their action lists are
                                                  not compared, their analysis intervals count like everybody's *)
@@ -54,15 +56,20 @@ Qed.
 Definition fan_triples (c : case) : list (fancfg * caps * entry) :=
   map (fun x => (fst (snd x), snd (snd x), db_of (c_db0 c) (fst x))) (c_fans c).
 
+Definition acts_of (c : case) (x : fancfg * caps * entry) : list action :=
+  let '(f, cp, e) := x in if c_init c then fst (init_cmd f cp e) else start_actions f cp e.
+Definition prog_of_thread (c : case) (x : fancfg * caps * entry) : list op :=
+  if c_init c then init_prog x else thread_prog x.
+
 Definition model_acts (c : case) : list (Z * list action) :=
-  map (fun x => (fst x, filter observable (start_actions (fst (snd x)) (snd (snd x)) (db_of (c_db0 c) (fst x))))) (c_fans c).
+  map (fun x => (fst x, filter observable (acts_of c (fst (snd x), snd (snd x), db_of (c_db0 c) (fst x))))) (c_fans c).
 
 Definition analysed (a : list action) : bool := has Sweep a || has MeasureRpm a.
 
 (* overlap is possible in the model only if some thread's program is not well locked
    (theorem Proofs.Sched.exclusive: all well locked -> never two threads inside) *)
 Definition overlap_allowed (c : case) : bool :=
-  negb (forallb (fun x => wlb false false (thread_prog x)) (fan_triples c)).
+  negb (forallb (fun x => wlb false false (prog_of_thread c x)) (fan_triples c)).
 
 Definition acts_eqb (a b : Z * list action) : bool := (fst a =? fst b) && list_eqb action_eqb (snd a) (snd b).
 
@@ -93,7 +100,9 @@ Proof.
   intros [[f cp] e] Hin. unfold fan_triples in Hin. apply in_map_iff in Hin.
   destruct Hin as [[id [f' cp']] [E Hin]]. cbn in E. inversion E; subst.
   rewrite Forall_forall in H. specialize (H _ Hin). cbn in H.
-  exact (start_well_locked f cp _ H).
+  unfold prog_of_thread. destruct (c_init c).
+  - exact (init_well_locked f cp _ H).
+  - exact (start_well_locked f cp _ H).
 Qed.
 
 (* agreement with the model on a case implies the property on that case *)
